@@ -344,12 +344,15 @@ func R14(p *core.Prog) *core.Result {
 						if id == nil {
 							break
 						}
-						if iff, ok := id.Instrs[len(id.Instrs)-1].(*ssa.If); ok && id.Succs[0] == d {
-							if cc, ok := iff.Cond.(*ssa.Call); ok {
+						// the first test that controls the allocation must be the IsNil test itself: under
+						// `IsNil() && <something else>` a nil map survives whenever the other condition is false
+						if iff, ok := id.Instrs[len(id.Instrs)-1].(*ssa.If); ok && (id.Succs[0] == d || id.Succs[1] == d) {
+							if cc, ok := iff.Cond.(*ssa.Call); ok && id.Succs[0] == d {
 								if s2 := cc.Common().StaticCallee(); s2 != nil && core.FuncName(s2) == "IsNil" {
 									guarded = true
 								}
 							}
+							break
 						}
 					}
 					if guarded {
@@ -401,6 +404,67 @@ func R14(p *core.Prog) *core.Result {
 			}
 		}
 		r.Floor("set_map_index_sites", n, 2)
+	}
+
+	// (b3) USER-KEY: the table of user unfolders is keyed by the type of the pointer the unfolder is handed (*T). It
+	// is never filled under a type AND its element type with the same unfolder, and it is looked up with
+	// reflect.PtrTo(<element type>) (or with the pointer type a compiler entry was given), never with an element
+	// type itself: for []*T / map[string]*T the element type *T would hit the entry meant for targets of type T and
+	// the user function would be handed the address of the pointer slot as a *T.
+	{
+		n := 0
+		for _, f := range p.ModFuncs() {
+			pk := core.FuncPkg(f)
+			if pk == nil || pk.Name() != "gotype" || f.Blocks == nil {
+				continue
+			}
+			var ups []*ssa.MapUpdate
+			for _, b := range f.Blocks {
+				for _, in := range b.Instrs {
+					switch x := in.(type) {
+					case *ssa.MapUpdate:
+						if mt, ok := x.Map.Type().Underlying().(*types.Map); ok {
+							if nt := namedOf(mt.Elem()); nt != nil && core.TypeName(nt) == "reflUnfolder" {
+								ups = append(ups, x)
+							}
+						}
+					case *ssa.Call:
+						sc := x.Common().StaticCallee()
+						if sc == nil || core.FuncName(sc) != "lookupReflUser" || len(x.Common().Args) < 2 {
+							continue
+						}
+						n++
+						arg := x.Common().Args[1]
+						okArg := false
+						if _, isPrm := arg.(*ssa.Parameter); isPrm {
+							okArg = true
+						}
+						if ac, ok := arg.(*ssa.Call); ok {
+							if as := ac.Common().StaticCallee(); as != nil && funcPkgPath(as) == "reflect" && (as.Name() == "PtrTo" || as.Name() == "PointerTo") {
+								okArg = true
+							}
+						}
+						pos := p.Pos(x.Pos())
+						if okArg {
+							r.Ok(".USER-KEY", pos, core.FuncKey(f)+": the user-unfolder table is looked up with a pointer-to-target type")
+						} else {
+							r.Fail(".USER-KEY", core.FuncKey(f)+"|lookup", pos, core.FuncKey(f)+" looks the user-unfolder table up with an element type itself at "+pos+" (not reflect.PtrTo of it): for []*T or map[string]*T the element type *T finds the unfolder registered for targets of type T, which is then handed the address of the pointer slot as if it were a *T and writes a whole T over the slot and its neighbours", "")
+						}
+					}
+				}
+			}
+			for _, a := range ups {
+				for _, b := range ups {
+					if a == b || a.Value != b.Value || a.Map != b.Map {
+						continue
+					}
+					if kc, ok := b.Key.(*ssa.Call); ok && kc.Common().IsInvoke() && kc.Common().Method.Name() == "Elem" && kc.Common().Value == a.Key {
+						r.Fail(".USER-KEY", core.FuncKey(f)+"|dual-key", p.Pos(b.Pos()), core.FuncKey(f)+" registers the same unfolder under a type and under its element type: a lookup cannot tell whether it found the unfolder for X or the one for *X", "")
+					}
+				}
+			}
+		}
+		r.Floor("user_unfolder_lookups", n, 3)
 	}
 
 	// (c) RECURSION-GUARD
